@@ -20,7 +20,8 @@ def run(tier, seed):
     extra = [([(7, 8, 1)], {'require': 'hd-under-orth', 'schemes': ('asc',), 'final': False}),
              # plus: the same charts reached through an editing history (placeholders queried, removed, names
              # re-used under other parents) - a statechart is well-formed however it was built
-             ([(2, 5, 1)], {'schemes': ('asc',), 'decls': ('rebuilt',)})]
+             ([(2, 5, 1)], {'schemes': ('asc',), 'decls': ('rebuilt',)}),
+             ([(4, 6, 1)], {'schemes': ('asc',), 'decls': ('moved',)})]
     return schemes.run('C02', tier, seed, PLAN[tier], ['legal'], {'legal', 'stable', 'final'},
                        RULE, ASSUME, extra_plans=extra)
 
